@@ -2,6 +2,7 @@
 from __future__ import annotations
 
 import copy
+import itertools
 import random
 import sys
 import threading
@@ -501,8 +502,64 @@ def extra_evidence(total):
             "thread_part": "stress sample only: 8 threads x 5 evaluations per run with sys.setswitchinterval(1e-6); not an exploration of schedules"}
 
 
+FRESH_QUERIES = ["$.a", "$[0]", "$..a", "$.*", "$[*]", "$", "$[?@.a]", "$[?@ == 1]", "$.a | $", "$.a | $.b", "$.a | ^[0]", "$ | $.a", "$.a & $.b", "$..* | $",
+                 "$.a.b | $[0][0]", "^[0]", "^[?@.a]", "$[~]", "$.a | $[~]"]
+FRESH_DOCS = [{}, [], {"a": 1}, [1], {"a": {"b": 2}, "b": 1}, [[1]], 0, None, {"a": []}, [{}]]
+
+
+def fresh_round(order, apis=("findall", "finditer", "query", "match")):
+    env = jsonpath.DEFAULT_ENV
+    out = {}
+    for qi, di in order:
+        q, d = FRESH_QUERIES[qi], copy.deepcopy(FRESH_DOCS[di])
+        for api in apis:
+            try:
+                if api == "findall":
+                    r = env.findall(q, d)
+                    snap = ("ok", len(r), canon(r[:50]))  # (a polluted shared list can grow without bound: never walk all of it)
+                    # what the caller does with a returned list is the caller's business
+                    r.append("__caller_appended__")
+                    r.reverse()
+                elif api == "finditer":
+                    r = [m.obj for m in itertools.islice(env.finditer(q, d), 5000)]
+                    snap = ("ok", len(r), canon(r[:50]))
+                elif api == "query":
+                    r = list(itertools.islice(env.query(q, d).values(), 5000))
+                    snap = ("ok", len(r), canon(r[:50]))
+                else:
+                    m = env.match(q, d)
+                    snap = ("ok", None if m is None else canon(m.obj))
+            except Exception as e:  # noqa: BLE001
+                snap = ("err", type(e).__name__)
+            out[(qi, di, api)] = snap
+    return out
+
+
+def t_fresh():
+    """every (query, document) pair evaluated in three rounds (forward, reversed, interleaved with compound queries on empty documents);
+    returned lists are mutated by the caller in between: each answer must stay what it was the first time"""
+    stats = Stats()
+    pairs = [(qi, di) for qi in range(len(FRESH_QUERIES)) for di in range(len(FRESH_DOCS))]
+    first = fresh_round(pairs)
+    n = len(first)
+    for rname, order in (("reversed", pairs[::-1]), ("forward-again", pairs), ("by-document", sorted(pairs, key=lambda p: (p[1], -p[0])))):
+        again = fresh_round(order)
+        n += len(again)
+        for k, v in again.items():
+            if v != first[k]:
+                qi, di, api = k
+                stats.fail("result-differs:later-round:%s" % api, {"origin": "fresh", "query": FRESH_QUERIES[qi], "doc": FRESH_DOCS[di], "api": api, "round": rname},
+                           "%s(%r, %s) first gave %s; in the %s round, after other evaluations and after the caller changed earlier returned lists, %s" % (
+                               api, FRESH_QUERIES[qi], short(FRESH_DOCS[di], 60), short(first[k], 100), rname, short(v, 100)))
+    stats.ev(n)
+    stats.nt("fresh", n)
+    stats.subspaces.append({"name": "19 queries (incl. compound) x 10 tiny / empty documents x 4 entry points, 4 rounds in different orders, returned lists mutated by the caller",
+                            "size": n, "exhaustive": True})
+    return stats
+
+
 def tasks(tier, seed):
-    ts = [{"name": "threads", "fn": "t_threads", "kw": {"seed": mix(seed, ID, "t"), "rounds": 40 if tier == "quick" else 600}}]
+    ts = [{"name": "fresh", "fn": "t_fresh"}, {"name": "threads", "fn": "t_threads", "kw": {"seed": mix(seed, ID, "t"), "rounds": 40 if tier == "quick" else 600}}]
     nm, nd = (150, 1200) if tier == "quick" else (2500, 20000)
     for k in range(10):
         ts.append({"name": "machine-%d" % k, "fn": "t_machine", "kw": {"seed": mix(seed, ID, "m", k), "n": nm}})
@@ -516,6 +573,13 @@ def tasks(tier, seed):
 def replay(case):
     """re-run a recorded history (texts, documents, contexts given explicitly) without Hypothesis"""
     stats = Stats()
+    if case.get("origin") == "fresh":
+        st = t_fresh()
+        for sig, (n, fs) in st.failures.items():
+            for f in fs:
+                if f["case"].get("query") == case.get("query") and f["case"].get("api") == case.get("api"):
+                    stats.fail(sig, f["case"], f["detail"])
+        return stats
     docs = copy.deepcopy(case["docs"])
     ctxs = copy.deepcopy(case["ctxs"])
     texts = case["texts"]
